@@ -89,7 +89,7 @@ Definition serde_snake_variant (s : string) : string := l2s (serde_snake_aux tru
 (* syn/proc_macro2 `Ident::to_string()` keeps the r# prefix; serde_derive and `unraw()` strip it *)
 Definition unraw (s : string) : string :=
   match s with
-  | String "r" (String "#" rest) => rest
+  | String a (String b rest) => if Ascii.eqb a "r"%char && Ascii.eqb b "#"%char then rest else s
   | _ => s
   end.
 
